@@ -57,6 +57,14 @@ def case_strategy(draw):
     op = draw(st.sampled_from(["extend", "extend", "merge", "timestamps", "timestamps", "grouped", "replace",
                                "init_from", "rewriter", "grouped-replace"]))
     recs = [draw(small_record()) for _ in range(draw(st.integers(1, 4)))]
+    if op == "timestamps" and draw(st.integers(0, 3)) == 0:
+        # a record that already LOOKS expanded (first fields 'datetime ts', 'string ts_description', free text in it)
+        # is a record like any other: one output per datetime field, described by the field's name
+        r0 = recs[0]
+        rest = [(t, n) for t, n in r0["desc"][1] if n not in ("ts", "ts_description")]
+        vals = [v for (t, n), v in zip(r0["desc"][1], r0["vals"]) if n not in ("ts", "ts_description")]
+        r0["desc"] = (r0["desc"][0], (("datetime", "ts"), ("string", "ts_description")) + tuple(rest))
+        r0["vals"] = [draw(value_of("datetime")), draw(st.sampled_from([None, "", "free text", "ts", "other"]))] + vals
     return {
         "op": op,
         "recs": recs,
@@ -277,6 +285,27 @@ def check(case, ctx):
                                     % (i, n, what, getattr(new, n), getattr(old, n) if what == "unnamed" else kw[n]),
                                     detail=what + ("-metadata" if n.startswith("_") else ""))
         originals_unchanged()
+        # the copy is a record of its own: assigning to it afterwards (any member's field) leaves the original group and
+        # its members alone, and assigning to the original afterwards leaves the copy alone
+        strs = [n for n, t, i in ref if t == "string" and n not in GROUPED_ATTRS]
+        for n2 in strs:
+            a = impl(setattr, out, n2, "assigned-to-copy")
+            if not a.ok:
+                raise Violation("grouped-replace/assign-to-copy-raised", "copy.%s = .. raised %r" % (n2, a), detail=a.type)
+            ctx.count(1)
+            try:
+                originals_unchanged()
+            except Violation as v:
+                raise Violation("grouped-replace/copy-shares-members", "after copy = g._replace(%r): assigning copy.%s changed the "
+                                "original: %s" % (kw, n2, v.message))
+        snap = [observe(r) for r in out.records]
+        for n2 in strs:
+            a = impl(setattr, g, n2, "assigned-to-original")
+            if not a.ok:
+                raise Violation("grouped-replace/assign-to-original-raised", "g.%s = .. raised %r" % (n2, a), detail=a.type)
+            if [observe(r) for r in out.records] != snap:
+                raise Violation("grouped-replace/copy-shares-members", "after copy = g._replace(%r): assigning g.%s changed the copy"
+                                % (kw, n2))
 
     elif op == "replace":
         spec, rec = specs[0], recs[0]
